@@ -26,13 +26,30 @@ func checkC09(c *Ctx) {
 			jobs = append(jobs, Job{
 				Name:              fmt.Sprintf("item-set termination outer=%d inner=%d", o, i),
 				Target:            t,
-				Run:               SymRun{Harness: "VerifC09Emoves", LoopBound: 300, ConcreteFmt: true, ForkFuncs: []string{"VerifC09Emoves"}, Intrinsics: nil},
+				Run:               SymRun{Harness: "VerifC09Emoves", LoopBound: 300, RecBound: 32, ConcreteFmt: true, ForkFuncs: []string{"VerifC09Emoves"}, Intrinsics: nil},
 				TimeoutS:          300,
 				UnwindIsViolation: true,
 				RequiredCovers:    []string{"item sets constructed"},
 				Bounds:            fmt.Sprintf("token t : 'x' OUTER(INNER(operand)) 'y' with OUTER=%s, INNER=%s and the operand symbolic among 5 shapes (character; two alternatives; a [b]; [a]; {a} b): items.GetItemSets finishes with every loop (Emoves worklist, closures, set construction) inside 300 iterations", opName(o), opName(i)),
 			})
 			jobs[len(jobs)-1].Run.Params = map[string]int{"OUTER": o, "INNER": i}
+		}
+	}
+	if !c.Quick() {
+		for m := 0; m < 3; m++ {
+			for o := 0; o < 3; o++ {
+				for i := 0; i < 3; i++ {
+					jobs = append(jobs, Job{
+						Name:              fmt.Sprintf("item-set termination outer=%d mid=%d inner=%d", o, m, i),
+						Target:            t,
+						Run:               SymRun{Harness: "VerifC09Emoves", Params: map[string]int{"OUTER": o, "INNER": i, "MID": m}, LoopBound: 400, RecBound: 32, ConcreteFmt: true, ForkFuncs: []string{"VerifC09Emoves"}},
+						TimeoutS:          300,
+						UnwindIsViolation: true,
+						RequiredCovers:    []string{"item sets constructed"},
+						Bounds:            fmt.Sprintf("three levels: 'x' %s(%s(%s(operand))) 'y', operand symbolic among 5 shapes; every loop inside 400 iterations", opName(o), opName(m), opName(i)),
+					})
+				}
+			}
 		}
 	}
 	jobs = append(jobs, c09PipelineJobs(c)...)
